@@ -50,32 +50,32 @@ theorem sum_count_eq_length {s : Store} (hmd : MergeDistinct s) (x : Loc) (Q : L
     · simp [h]; omega
     · simp [h]
 
-/-- **`initCounts_eq_arrivals`.** -/
-theorem initCounts_eq_entries {s : Store} (hwf : WF s) (hmd : MergeDistinct s)
+/-- core: the entries of a BFS advanced to level `m`, for commands at or above that level -/
+theorem initCounts_eq_entries_level {s : Store} (hwf : WF s) (hmd : MergeDistinct s)
     (attr : Loc → AranyaV.Gen.Priority) {hs : List Loc} (hnd : hs.Nodup)
     (hv : ∀ h ∈ hs, s.valid h = true) (hanti : ∀ a ∈ hs, ∀ b ∈ hs, a ≠ b → ¬ AncS s a b)
-    (C : Loc) {n : Nat} {b : Bfs} (hrun : advanceTo s C.mc 0 n (Bfs.init hs) = .ok b)
-    {x : Loc} (hx : s.valid x = true) (k : Nat) :
+    (C : Loc) {m : Nat} {b : Bfs} (hadv : Adv s C.mc hs m b)
+    {x : Loc} (hx : s.valid x = true) (hxm : m ≤ x.mc) (k : Nat) :
     AranyaV.Braid.initCounts (graphOf s attr) (Spec.ancSelfAll (graphOf s attr) (hs.map (locId s)))
         (belowOf (idLoc s) C) (locId s x) = some k ↔ (x, k) ∈ b.entries := by
   have hp := hwf.priors
   have hgw := graphOf_wf hp hmd attr
   have habs := abs_graphOf hp attr
-  obtain ⟨hdesc, hmem, hent, _⟩ := advanceTo_spec hp hv hrun
+  obtain ⟨hdesc, hmem, hent⟩ := adv_spec hp hadv
   have hpnd : b.popped.Nodup := by
     unfold List.Nodup
     refine hdesc.imp ?_
     intro a c h e; subst e; exact Lt.irrefl a h
   -- region membership, for locations above the cut
-  have hRiff : ∀ y, s.valid y = true → C.mc < y.mc →
+  have hRiff : ∀ y, s.valid y = true → C.mc < y.mc → m ≤ y.mc →
       (locId s y ∈ Spec.ancSelfAll (graphOf s attr) (hs.map (locId s)) ↔ y ∈ b.popped) := by
-    intro y hy hyc
+    intro y hy hyc hym
     rw [Spec.mem_ancSelfAll hgw, hmem y]
     constructor
     · rintro ⟨j, hj, hr⟩
       rw [List.mem_map] at hj
       obtain ⟨h, hh, rfl⟩ := hj
-      exact ⟨⟨h, hh, regFrom_of_ancS hp ((habs.reach y h hy (hv h hh)).mp hr) hyc⟩, Nat.zero_le _⟩
+      exact ⟨⟨h, hh, regFrom_of_ancS hp ((habs.reach y h hy (hv h hh)).mp hr) hyc⟩, hym⟩
     · rintro ⟨⟨h, hh, hr⟩, _⟩
       exact ⟨locId s h, List.mem_map.mpr ⟨h, hh, rfl⟩, (habs.reach y h hy (hv h hh)).mpr (regFrom_ancS hr)⟩
   have hbelow : belowOf (idLoc s) C (locId s x) = decide (x.mc ≤ C.mc) := by
@@ -114,10 +114,12 @@ theorem initCounts_eq_entries {s : Store} (hwf : WF s) (hmd : MergeDistinct s)
           exact (locId_inj hx hpv hpe).symm
         subst hpx
         have hlc : C.mc < l.mc := by have := (parent_valid hp hpm).2.2; omega
-        exact ⟨l, ⟨⟨(hRiff l hlv hlc).mp hjR, hlc⟩, hpm⟩, rfl⟩
+        have hlm : m ≤ l.mc := by have := (parent_valid hp hpm).2.2; omega
+        exact ⟨l, ⟨⟨(hRiff l hlv hlc hlm).mp hjR, hlc⟩, hpm⟩, rfl⟩
       · rintro ⟨l, ⟨⟨hlP, hlc⟩, hpm⟩, rfl⟩
         have hlv := (parent_valid hp hpm).2.1
-        exact ⟨(par_graphOf attr).mpr ⟨l, idLoc_locId hlv, x, hpm, rfl⟩, (hRiff l hlv hlc).mpr hlP⟩)
+        have hlm : m ≤ l.mc := by have := (parent_valid hp hpm).2.2; omega
+        exact ⟨(par_graphOf attr).mpr ⟨l, idLoc_locId hlv, x, hpm, rfl⟩, (hRiff l hlv hlc hlm).mpr hlP⟩)
     rw [hperm.length_eq, List.length_map]
   -- a head has no region child: antichain
   have hhead : x ∈ hs → ∀ y ∈ b.popped, x ∉ s.parents y := by
@@ -158,7 +160,7 @@ theorem initCounts_eq_entries {s : Store} (hwf : WF s) (hmd : MergeDistinct s)
       · rintro ⟨_, _, rfl, h2⟩; omega
     · have hz : hs.count x = 0 := by rw [count_of_nodup hnd]; simp [hxh]
       rw [harr, hz, Nat.zero_add]
-      have hR := hRiff x hx hxc
+      have hR := hRiff x hx hxc hxm
       constructor
       · intro h
         split at h
@@ -179,5 +181,16 @@ theorem initCounts_eq_entries {s : Store} (hwf : WF s) (hmd : MergeDistinct s)
     constructor
     · intro h; cases h
     · rintro ⟨_, h2, _, _⟩; omega
+
+/-- **`initCounts_eq_arrivals`** for the complete BFS (one call with target 0). -/
+theorem initCounts_eq_entries {s : Store} (hwf : WF s) (hmd : MergeDistinct s)
+    (attr : Loc → AranyaV.Gen.Priority) {hs : List Loc} (hnd : hs.Nodup)
+    (hv : ∀ h ∈ hs, s.valid h = true) (hanti : ∀ a ∈ hs, ∀ b ∈ hs, a ≠ b → ¬ AncS s a b)
+    (C : Loc) {n : Nat} {b : Bfs} (hrun : advanceTo s C.mc 0 n (Bfs.init hs) = .ok b)
+    {x : Loc} (hx : s.valid x = true) (k : Nat) :
+    AranyaV.Braid.initCounts (graphOf s attr) (Spec.ancSelfAll (graphOf s attr) (hs.map (locId s)))
+        (belowOf (idLoc s) C) (locId s x) = some k ↔ (x, k) ∈ b.entries :=
+  initCounts_eq_entries_level hwf hmd attr hnd hv hanti C (advanceTo_init_adv hwf.priors hv hrun) hx
+    (Nat.zero_le _) k
 
 end AranyaV.Segments
